@@ -64,7 +64,52 @@ def ob_e2(prop: str, oid: str, run, **meta):
 
 
 def for_property(prop: str, tier: str) -> List[Obligation]:
-    return [o for o in REG.values() if o.prop == prop and tier in o.tiers]
+    obs = [o for o in REG.values() if o.prop == prop and tier in o.tiers]
+    if tier != "thorough":
+        return obs
+    return thorough_selection(prop)[0]
+
+
+def thorough_selection(prop: str):
+    """The thorough tier = every quick obligation + the deeper obligations that fit the CPU budget
+    (VF_THOROUGH_BUDGET weight units ~ CPU seconds per property, default 3000), chosen
+    deterministically: round-robin over the obligation families, cheapest instance first, minus
+    the instances listed in vf/thorough_excluded.json (deeper obligations that did not conclude
+    within their time-out when the tier was sized).  Returns (selected, not_run): what is defined
+    but not run is reported in the evidence file and is outside the claim."""
+    import json
+    import os
+
+    allo = [o for o in REG.values() if o.prop == prop]
+    base = [o for o in allo if "quick" in o.tiers]
+    deep = [o for o in allo if "quick" not in o.tiers and "thorough" in o.tiers]
+    cap = float(os.environ.get("VF_THOROUGH_MAX_TIMEOUT", "900"))  # longer obligations: defined, not run
+    try:
+        excluded = set(json.load(open(os.path.join(os.path.dirname(__file__), "thorough_excluded.json"))).get(prop, []))
+    except Exception:  # noqa: BLE001
+        excluded = set()
+    budget = float(os.environ.get("VF_THOROUGH_BUDGET", "3000"))
+    fams: Dict[str, list] = {}
+    for o in deep:
+        if o.key in excluded or o.timeout > cap:
+            continue
+        fams.setdefault(o.oid.split("[")[0], []).append(o)
+    for f in fams.values():
+        f.sort(key=lambda o: (o.weight, o.key))
+    chosen, spent = [], 0.0
+    progress = True
+    while progress:
+        progress = False
+        for name in sorted(fams):
+            f = fams[name]
+            if f and spent + f[0].weight <= budget:
+                o = f.pop(0)
+                chosen.append(o)
+                spent += o.weight
+                progress = True
+    sel = {o.key for o in chosen}
+    not_run = [o for o in deep if o.key not in sel]
+    return base + chosen, not_run
 
 
 def _srcfn(name: str, params, doc_lines, body: str, g: dict):
